@@ -63,10 +63,10 @@ class Check(PropertyCheck):
                 res.append(("time-decreased", f"current time went from {prev} to {t} after `{scenario.lines[index - 1]}`"))
             ctx["t"] = t
             v = oracles.View(impl.instance, d.schedule.schedule)
-            if not scenario.meta["zero_dur"]:
+            if not gen.has_zero(impl.jobs):
                 base = v.now(None)
                 if t != base:
-                    res.append(("filter-changed-time", f"current_time()={t} under filter {scenario.meta['filter']} but "
+                    res.append(("filter-changed-time", f"current_time()={t} under filter {impl.filter_tokens} but "
                                 f"the no-filter time recomputed from the schedule is {base}"))
             if d.schedule.is_complete() and t != v.makespan():
                 res.append(("final", f"schedule complete but current_time()={t} != makespan {v.makespan()}"))
